@@ -61,6 +61,7 @@ fn case(rng: &mut Rng, idx: u64, rec: &mut Rec) {
         body: if bare_final { BodyPlan::Bare } else { body },
         close_data,
         extra_interim: 0,
+        unsolicited_100: 0,
     };
     // length of the status line (through CRLF) of the first head on the wire
     let status_line_len = if first_is_100 {
